@@ -89,9 +89,9 @@ def docstring_keywords():
         doc = m.group(1) if m else ''
     out = {}
     for line in doc.splitlines():
-        m = re.match(r'\s*([A-Z][A-Z.]{2,3})\b(.*)', line)
-        if m and m.group(1) not in out:
-            out[m.group(1)] = m.group(2)
+        m = re.match(r'\s*([A-Z][A-Z.]{2,3})(?=\s|$)(.*)', line)
+        if m:
+            out[m.group(1)] = out.get(m.group(1), '') + ' ' + m.group(2)
     return out
 
 
@@ -104,17 +104,18 @@ def check_syntax_table():
             bad.append('keyword %s not in the library syntax summary' % kw)
     for kw, (lo, hi, words, sfx, defaults) in SYNTAX.items():
         if kw in doc and defaults:
-            found = re.findall(r'\[([^\]]*)\]', doc[kw])
-            # compare bracketed numeric defaults position-wise where the summary gives numbers
+            # all numbers the summary gives in brackets, in order, against the table's known defaults, in order
             nums = []
-            for f in found:
-                try:
-                    nums.append(float(f.replace('.33333', '0.33333')) if f not in ('#', ' ', '') else None)
-                except ValueError:
-                    nums.append(None)
-            for i, (d, e) in enumerate(zip(defaults, nums)):
-                if d is not None and e is not None and abs(d - e) > 1e-9:
-                    bad.append('default %d of %s differs: table %s, summary %s' % (i, kw, d, e))
+            for f in re.findall(r'\[([^\]]*)\]', doc[kw]):
+                for tok in f.split():
+                    try:
+                        nums.append(float(tok))
+                    except ValueError:
+                        pass
+            mine = [float(d) for d in defaults if d is not None]
+            it = iter(nums)
+            if not all(any(abs(a - b) < 1e-9 for b in it) for a in mine):    # table defaults = subsequence of the summary's
+                bad.append('defaults of %s differ: table %s, summary %s' % (kw, mine, nums))
     return bad
 
 
@@ -200,3 +201,232 @@ def independent_lex(text):
             break
         out.append({'raw': ln, 'tokens': toks, 'free': False})
     return out
+
+
+# ----------------------------------------------------------------------------- whole files
+
+SFAC_ELEMENTS = ['C', 'H', 'O', 'N', 'F', 'Cl', 'S']
+INT_KW = {'AFIX', 'MPLA', 'L.S.', 'CGLS', 'LIST', 'MORE', 'MERG', 'PLAN', 'FMAP', 'HKLF', 'WPDB', 'TWST', 'LATT'}
+
+
+def instr_tokens(rng, kw, names, arity=None, nwords=None, suffix=None):
+    """a valid instruction of the syntax table: returns (tokens, nums, words)"""
+    lo, hi, words, sfx, defaults = SYNTAX[kw]
+    ar = ARITIES.get(kw, list(range(lo, hi + 1)))
+    n = rng.choice(ar) if arity is None else arity
+    if kw == 'HKLF':
+        nums = [4, 1, 1, 0, 0, 0, 1, 0, 0, 0, 1, 1, 0][:n]
+        if n > 2:
+            nums = [4, 1, 0, 1, 0, 1, 0, 0, 0, 0, -1, 0.5, 2][:n]
+    elif kw == 'TWIN':
+        nums = ([0, 1, 0, 1, 0, 0, 0, 0, -1] + [-4])[:n]
+    elif kw == 'AFIX':
+        nums = [rng.choice([43, 137, 23, 13, 66, 0])] + [0.98, 11.0, -1.2][:max(0, n - 1)]
+    elif kw == 'HFIX':
+        nums = [rng.choice([43, 137, 23])] + [-1.2, 0.97][:n - 1]
+    elif kw == 'DANG':
+        d = round(rng.uniform(2.1, 2.9), 3)
+        nums = [d] + [round(rng.uniform(0.01, 0.09), 3)][:n - 1]
+    elif kw == 'DFIX':
+        nums = [round(rng.uniform(1.1, 1.9), 3)] + [round(rng.uniform(0.011, 0.05), 3)][:n - 1]
+    elif kw == 'NCSY':
+        nums = [rng.randint(1, 4)] + distinct_numbers(rng, n - 1)
+    elif kw == 'MPLA':
+        nums = [rng.randint(3, 5)][:n]
+    elif kw == 'SUMP':
+        nums = [1.0, 0.01] + [v for k in range((n - 2) // 2) for v in (1.0, k + 2)]
+    elif kw == 'OMIT' and n == 3:
+        nums = [rng.randint(-5, 5) for _ in range(3)]
+    elif kw in ('L.S.', 'CGLS'):
+        nums = [rng.randint(1, 20), rng.choice([0, 0, 2, -1]), rng.randint(1, 9)][:n]
+    elif kw == 'LIST':
+        nums = [rng.choice([4, 6, 8]), 1][:n]
+    elif kw == 'ACTA':
+        nums = [rng.choice([50, 52.5, 55])][:n]
+    elif kw == 'WGHT':
+        nums = [round(rng.uniform(0.01, 0.2), 4), round(rng.uniform(0.0, 3), 4), 0, 0, 0, 0.3333][:n]
+    elif kw == 'DEFS':
+        nums = [0.01, 0.2, 0.02, 0.05, 1.5][:n]
+    elif kw == 'MOVE':
+        nums = [0.5, 0.25, 0.75, -1][:n]
+    else:
+        nums = distinct_numbers(rng, n, integer=kw in INT_KW)
+    if words:
+        w = rng.randint(words[0], words[1]) if nwords is None else nwords
+        if kw in ('DFIX', 'DANG', 'SADI') and w % 2:
+            w += 1
+        ws = [rng.choice(names) for _ in range(w)] if names else []
+        if kw == 'RTAB':
+            ws = ['Dist'] + ws[1:]
+        if kw == 'ANIS' and n > 0:
+            ws = []
+    else:
+        ws = []
+    head = kw
+    if sfx and suffix:
+        head = kw + '_' + suffix
+    toks = [head] + [fmt_num(x) for x in nums] + ws
+    return toks, nums, ws
+
+
+def gen_file(rng, natoms=None, ninstr=None, with_qpeaks=True, restraints=True, keywords=None, resi=True, parts=True, afix=True):
+    """returns dict(lines=[logical line dicts], atoms=[expected atom dicts], header info)"""
+    lines = []
+
+    def add(tokens, kind, **kw):
+        d = {'tokens': list(tokens), 'kind': kind}
+        d.update(kw)
+        lines.append(d)
+        return d
+    add(['TITL', 'generated', 'file', 'in', 'P2(1)/c'], 'titl')
+    cell = [0.71073, round(rng.uniform(7, 15), 3), round(rng.uniform(7, 15), 3), round(rng.uniform(7, 15), 3), 90, round(rng.uniform(91, 110), 2), 90]
+    add(['CELL'] + [fmt_num(x) for x in cell], 'cell', nums=cell)
+    zerr = [rng.choice([2, 4, 8]), 0.001, 0.002, 0.003, 0, 0.01, 0]
+    add(['ZERR'] + [fmt_num(x) for x in zerr], 'zerr', nums=zerr)
+    latt = rng.choice([1, -1, 2, 7])
+    add(['LATT', str(latt)], 'latt', nums=[latt])
+    add(['SYMM', '-X,', '1/2+Y,', '1/2-Z'], 'symm')
+    nel = rng.randint(3, len(SFAC_ELEMENTS))
+    els = SFAC_ELEMENTS[:nel]
+    if rng.random() < 0.4:
+        k = rng.randint(1, nel - 1)
+        add(['SFAC'] + els[:k], 'sfac', elements=els[:k])
+        add(['SFAC'] + els[k:], 'sfac', elements=els[k:])
+    else:
+        add(['SFAC'] + els, 'sfac', elements=els)
+    unit = [rng.choice([4, 8, 12, 16, 24, 36, 40]) for _ in els]
+    add(['UNIT'] + [str(u) for u in unit], 'unit', nums=unit)
+    natoms = natoms if natoms is not None else rng.randint(3, 9)
+    names = []
+    for i in range(natoms):
+        el = rng.choice(els)
+        names.append('%s%d%s' % (el, i + 1, rng.choice(['', '', 'A', 'B'])))
+    # global instructions before the atoms
+    glob = ['L.S.', 'PLAN', 'TEMP', 'SIZE', 'ACTA', 'BOND', 'CONF', 'FMAP', 'LIST', 'WGHT', 'MORE', 'SHEL', 'OMIT', 'MERG', 'EXTI', 'SWAT',
+            'DAMP', 'TWIN', 'BASF', 'XNPD', 'WPDB', 'WIGL', 'GRID', 'ABIN', 'ANSR', 'PRIG', 'SPEC', 'STIR', 'TWST', 'MOVE', 'ANSC', 'HTAB', 'CGLS', 'BLOC',
+            'BIND', 'FREE', 'EQIV_', 'DEFS']
+    pool = keywords if keywords is not None else glob
+    k = ninstr if ninstr is not None else rng.randint(2, 8)
+    chosen = rng.sample(pool, min(k, len(pool)))
+    if 'DEFS' in chosen:      # DEFS has to come before the restraints it modifies
+        chosen.remove('DEFS'); chosen.insert(0, 'DEFS')
+    for kw in chosen:
+        if kw == 'EQIV_':
+            add(['EQIV', '$1', '-x,', 'y+1/2,', '-z'], 'instr', kw='EQIV')
+            continue
+        toks, nums, ws = instr_tokens(rng, kw, names)
+        add(toks, 'instr', kw=kw, nums=nums, words=ws)
+    nfv = rng.randint(3, 12)     # the occupation codes used below refer to free variables 2 and 3
+    fv = [1.0] + [round(rng.uniform(0.1, 0.9), 4) for _ in range(nfv - 1)]
+    if nfv > 3 and rng.random() < 0.5:
+        k = rng.randint(1, nfv - 1)
+        add(['FVAR'] + [fmt_num(x) for x in fv[:k]], 'fvar', nums=fv[:k])
+        add(['FVAR'] + [fmt_num(x) for x in fv[k:]], 'fvar', nums=fv[k:])
+    else:
+        add(['FVAR'] + [fmt_num(x) for x in fv], 'fvar', nums=fv)
+    # atoms with running context
+    atoms = []
+    ctx = {'part': (0, None), 'afix': 0, 'resi': (0, '')}
+    rkw = ['SADI', 'DFIX', 'DANG', 'SIMU', 'DELU', 'RIGU', 'ISOR', 'FLAT', 'SAME', 'CHIV', 'EADP', 'EXYZ', 'NCSY', 'HFIX', 'MPLA', 'RTAB', 'CONN', 'ANIS']
+    for i, nm in enumerate(names):
+        r = rng.random()
+        if resi and r < 0.15:
+            num = rng.randint(1, 5)
+            cls = rng.choice(['', 'TOL', 'CCF3', 'thf'])
+            toks = ['RESI'] + ([cls] if cls else []) + [str(num)]
+            if cls and rng.random() < 0.4:
+                toks = ['RESI', str(num), cls]
+            add(toks, 'resi', number=num, cls=cls)
+            ctx['resi'] = (num, cls)
+        elif parts and r < 0.3:
+            n = rng.choice([1, 2, -1, 0])
+            sof = rng.choice([None, None, 21.0, -21.0, 10.5]) if n != 0 else None
+            add(['PART', str(n)] + ([fmt_num(sof)] if sof is not None else []), 'part', n=n, sof=sof)
+            ctx['part'] = (n, sof)
+        elif afix and r < 0.42:
+            mn = rng.choice([43, 137, 23, 66, 0])
+            add(['AFIX', str(mn)], 'afix', mn=mn)
+            ctx['afix'] = mn
+        elif restraints and r < 0.6:
+            kw = rng.choice(rkw)
+            suffix = rng.choice([None, None, None, str(ctx['resi'][0]) if ctx['resi'][0] else None])
+            toks, nums, ws = instr_tokens(rng, kw, names, suffix=suffix)
+            add(toks, 'instr', kw=kw, nums=nums, words=ws, suffix=suffix)
+        el = ''.join(c for c in nm if c.isalpha())[:2]
+        el = el if el in els else el[:1]
+        sf = els.index(el) + 1 if el in els else 1
+        xyz = [round(rng.uniform(-0.5, 1.5), 5) for _ in range(3)]
+        own_sof = rng.choice([11.0, 11.0, 10.5, 21.0, -21.0, 10.25, 31.0])
+        ncols = rng.choice([7, 7, 7, 12, 12, 6, 5])
+        if ncols == 12:
+            u = [round(rng.uniform(0.01, 0.08), 5) for _ in range(3)] + [round(rng.uniform(-0.02, 0.02), 5) for _ in range(3)]
+        elif ncols == 7:
+            u = [round(rng.uniform(0.01, 0.09), 5)]
+        else:
+            u = []
+        toks = [nm, str(sf)] + ['%.5f' % v for v in xyz]
+        if ncols >= 6:
+            toks.append('%.5f' % own_sof)
+        toks += ['%.5f' % v for v in u]
+        exp_sof = own_sof if ncols >= 6 else 11.0
+        if ctx['part'][1] is not None:
+            exp_sof = ctx['part'][1]
+        atoms.append({'name': nm, 'sfac': sf, 'element': els[sf - 1], 'xyz': xyz, 'sof': exp_sof, 'own_sof': own_sof if ncols >= 6 else None,
+                      'uvals': (u + [0.0] * 5)[:6] if len(u) != 0 else [0.05, 0, 0, 0, 0, 0], 'ncols': ncols,
+                      'part': ctx['part'][0], 'afix': ctx['afix'], 'resinum': ctx['resi'][0], 'resiclass': ctx['resi'][1], 'qpeak': False})
+        add(toks, 'atom', atom=atoms[-1])
+    close = rng.random() < 0.6
+    if close:
+        if ctx['afix']:
+            add(['AFIX', '0'], 'afix', mn=0)
+        if ctx['part'][0]:
+            add(['PART', '0'], 'part', n=0, sof=None)
+        if ctx['resi'][0]:
+            add(['RESI', '0'], 'resi', number=0, cls='')
+    hk = rng.choice([1, 1, 2, 11, 13])
+    toks, nums, ws = instr_tokens(rng, 'HKLF', names, arity=hk)
+    add(toks, 'hklf', kw='HKLF', nums=nums, words=[])
+    add(['END'], 'end')
+    if with_qpeaks:
+        for q in range(rng.randint(0, 3)):
+            xyz = [round(rng.uniform(0, 1), 4) for _ in range(3)]
+            h = round(rng.uniform(0.2, 2.5), 2)
+            atoms.append({'name': 'Q%d' % (q + 1), 'sfac': 1, 'element': els[0], 'xyz': xyz, 'sof': 11.0, 'own_sof': 11.0, 'uvals': [0.05, h, 0, 0, 0, 0],
+                          'ncols': 8, 'part': 0, 'afix': 0, 'resinum': 0, 'resiclass': '', 'qpeak': True})
+            add(['Q%d' % (q + 1), '1'] + ['%.4f' % v for v in xyz] + ['11.00000', '0.05', '%.2f' % h], 'atom', atom=atoms[-1])
+    return {'lines': lines, 'atoms': atoms, 'elements': els, 'unit': unit, 'fvars': fv, 'names': names, 'closed': close, 'cell': cell, 'zerr': zerr, 'latt': latt}
+
+
+def gen_layout(rng, tokens, kind, style):
+    """layout for one logical line; style: 'plain' | 'wild'"""
+    if style == 'plain' or kind in ('titl',):
+        return {}
+    lay = {}
+    n = len(tokens)
+    if n > 2 and rng.random() < 0.5 and kind not in ('symm',):
+        k = rng.randint(1, min(3, n - 1))
+        lay['wraps'] = set(rng.sample(range(1, n), k))
+        lay['indent'] = rng.randint(1, 6)
+    lay['gap'] = rng.choice([1, 1, 2, 'rand'])
+    if rng.random() < 0.3:
+        lay['comment'] = rng.choice(['a comment', 'x = y', 'note! twice', '=', 'C1 1 0 0 0'])
+    if rng.random() < 0.3:
+        lay['lower'] = rng.choice([True, 'all'])
+    if rng.random() < 0.2:
+        lay['before'] = rng.choice([[''], ['  indented comment line'], ['', ' x = 1'], ['   ']])
+    return lay
+
+
+def render_file(gf, rng, style='plain', layouts=None, starts=None):
+    """text of the file; if starts is a list it receives the physical line index where each logical line begins"""
+    out = []
+    for i, l in enumerate(gf['lines']):
+        lay = layouts[i] if layouts is not None else gen_layout(rng, l['tokens'], l['kind'], style)
+        toks = l['tokens']
+        if l['kind'] == 'symm':
+            lay = dict(lay); lay.pop('wraps', None)
+        phys = render_logical(toks, lay, rng)
+        if starts is not None:
+            starts.append(len(out) + len(lay.get('before', [])))
+        out.extend(phys)
+    return '\n'.join(out) + '\n'
